@@ -631,6 +631,61 @@ def run_attr_children(ctx, i, rng):
       v = dict(v, stats=unfreeze(want[1])['stats'])
 
 
+_HELPER = {}
+
+
+def helper_classes(tr_name, n_helper, n_after, twice):
+  key = (tr_name, n_helper, n_after, twice)
+  if key in _HELPER:
+    return _HELPER[key]
+  import flax.linen as nn
+  import jax.numpy as jnp
+  tr = {'plain': (lambda f: f), 'jit': nn.jit, 'remat': nn.remat}[tr_name]
+
+  class M(nn.Module):
+    def helper(self, x):
+      for _ in range(n_helper):
+        x = jnp.tanh(nn.Dense(3)(x))      # auto-named Dense_0 ..
+      return x
+    helper = tr(helper)
+
+    @nn.compact
+    def __call__(self, x):
+      x = self.helper(x)
+      if twice:
+        x = self.helper(x) + 0.5 * x       # the helper's layers are created once and reused by the second call? no: auto-names go on
+      for _ in range(n_after):
+        x = nn.Dense(3)(x)                 # must continue the numbering after the helper's layers
+      return x
+
+  _HELPER[key] = M
+  return M
+
+
+def run_jit_helper(ctx, i, rng):
+  """A lifted HELPER METHOD that creates auto-named sub-modules, called from a compact __call__ that creates more of them afterwards:
+  the numbering of auto-names must go on after the helper on every call - also when the jitted helper is a trace-cache hit."""
+  import jax
+  from flax.core import unfreeze
+  tr_name = ['jit', 'jit', 'remat'][i % 3]
+  n_helper, n_after, twice = 1 + (i // 3) % 2, 1 + (i // 6) % 2, (i // 12) % 2 == 1
+  same_instance = (i // 24) % 2 == 1
+  desc = dict(transform=tr_name, helper_layers=n_helper, layers_after=n_after, helper_called_twice=twice, same_instance=same_instance)
+  with ctx.case('jit_helper', i, desc, nontrivial=True):
+    P, L = helper_classes('plain', n_helper, n_after, twice), helper_classes(tr_name, n_helper, n_after, twice)
+    x = np.random.default_rng(i).uniform(-1, 1, size=(2, 3)).astype(np.float32)
+    vs = unfreeze(P().init(jax.random.key(i), x))
+    vl = unfreeze(L().init(jax.random.key(i), x))
+    ctx.op('nn.%s(helper method creating auto-named sub-modules)' % tr_name)
+    ctx.check(shapes(vl) == shapes(vs), 'init:tree_structure:lifted_helper_method', lambda: dict(case=desc, lifted=shapes(vl), plain=shapes(vs)))
+    want = P().apply(vs, x)
+    inst = L()
+    for rep in range(3):
+      got = (inst if same_instance else L()).apply(vs, x)
+      ctx.check(close(got, want), 'history:stale_trace:autoname_cursor_after_lifted_helper',
+                lambda: dict(case=desc, call=rep, got=np.asarray(got).tolist(), want=np.asarray(want).tolist()))
+
+
 def run_bad_write(ctx, i, rng):
   import jax
   from flax import errors
@@ -666,6 +721,8 @@ def run(ctx):
     run_rng(ctx, i, ctx.rng('rng', i))
   for i in ctx.indices(30 if ctx.tier == 'quick' else 300, 'history'):
     run_history(ctx, i, ctx.rng('history', i))
+  for i in ctx.indices(24 if ctx.tier == 'quick' else 96, 'jit_helper'):
+    run_jit_helper(ctx, i, ctx.rng('jit_helper', i))
   for i in ctx.indices(48 if ctx.tier == 'quick' else 400, 'attr_children'):
     run_attr_children(ctx, i, ctx.rng('attr_children', i))
   for i in ctx.indices(24 if ctx.tier == 'quick' else 200, 'attr_history'):
